@@ -372,6 +372,13 @@ def rewrite_body(body, log, r14=None):
     out.append(body[i:])
     body = ''.join(out)
 
+    # R13 -- opaque cache types
+    body, n = re.subn(r'\bLruCache::new\(NonZeroUsize::new\([\d_]+\)\.unwrap\(\)\)', 'MoveCacheMap::new()', body)
+    log.extend(['R13'] * n)
+    if 'attacks_cache' in body:
+        body, n = re.subn(r'\bFxHashMap::default\(\)', 'AttackCacheMap::default()', body)
+        log.extend(['R13'] * n)
+
     # R9 -- constructor as function value, `_` closure parameter
     n = body.count('.map(Capture)')
     if n:
